@@ -110,6 +110,12 @@ func (c *FrameCodec) Encode(frame Frame, dst *sonic.ByteBuffer) error {
 	// ensure the destination buffer can hold the serialized frame
 	dst.Reserve(frame.PayloadLength() + frameMaxHeaderLength)
 
+	// Write exactly header + declared payload: a frame on which SetPayload was never called (fresh or
+	// recycled) is longer than that.
+	if end := frame.payloadOffset() + frame.PayloadLength(); end >= 0 && end < len(frame) {
+		frame = frame[:end]
+	}
+
 	n, err := frame.WriteTo(dst)
 	dst.Commit(int(n))
 	if err != nil {
